@@ -54,6 +54,11 @@ CLAIMED["C04"] = dict(
     text="Protocol clause, proved on the real store and write-path functions with every operating-system primitive and every store write free to fail, and stated over prefixes of the ghost event log so that it holds at every crash point: FilesystemMetadataStore.write never leaves a torn record (the record name is only touched by os.replace from a completely written, closed temporary holding exactly `data`; True means replaced and stamped); build.write_cache hands a meta record to its caller only if the data record it describes is in the store (interface unchanged, or the single data write succeeded), with data_mtime read from the store after that write and the interface hash taken over the bytes written, and writes no meta itself; find_cache_meta ignores an entry whose meta_ex record is missing or unreadable.",
     level_note="Per-process sequences only; the coordinator/worker interleaving of a parallel build is not modelled. os.replace atomicity and sqlite transaction atomicity are trusted.",
     technique="contract-based deductive verification: VC generation from the real AST against postconditions over a ghost event log (crash points = log prefixes), failing primitives by nondeterministic contracts; SMT discharge (z3, cvc5)")
+CLAIMED["C03"] = dict(
+    engine="pyvc", category="proof", design_ref="DESIGN.md section 5 C03",
+    text="Two mechanisms that are functions of local state, proved on the real code for every file system and every stored state: (1) change detection -- one generic iteration of FileSystemWatcher._find_changed reports a path exactly when it appeared, disappeared, or (size or whole-second mtime differ) and (size or content hash differ), refreshes the remembered (mtime, size, hash) whenever the stat differed, and touches no other path; add/remove_watched_paths keep every watched path in the data map; (2) removal of stale diagnostics -- one generic iteration plus the tail of Errors.clear_errors_in_targets keep an error exactly when its target is not being re-checked (order preserved), keep the file blocked only if a kept error is a blocker, release dropped only-once messages, and touch no other file.",
+    level_note="The property itself (daemon answers == full check for every edit history) is NOT decided: completeness of server/deps.py, astdiff, astmerge and aststrip is a relation between two whole analyses and is outside any per-function contract. Loops are verified by one generic iteration plus the statements after the loop (the iteration postconditions include the frame); their composition over all elements is the standard loop rule and is argued in DESIGN.md, not machine-checked.",
+    technique="contract-based deductive verification: VC generation from the real AST (per-iteration contracts with frames, region contracts); SMT discharge (z3, cvc5)")
 CLAIMED["C08"] = dict(
     engine="frames", category="proof", design_ref="DESIGN.md section 5 C08",
     text="One clause only ('answers do not depend on what the subtype caches contain') as a frame condition on mypy/subtypes.py: every SubtypeContext flag, proper_subtype and every state.<global> read by SubtypeVisitor is a component of build_subtype_kind's key, and the type_state cache entry points are only called with a kind built by build_subtype_kind.",
@@ -88,7 +93,6 @@ NOT_APPLICABLE = {
     "C05": "compiler correctness of mypyc end to end: a simulation proof, not a function contract (DESIGN.md 5 C05); the numeric leaf is C15",
     "C17": "behaviour of argparse/configparser/tomllib over the whole flag table plus reflection; only enumeration (another family) applies (DESIGN.md 5 C17)",
     "C19": "validity of emitted stub text is a statement about running mypy/stubtest on the output (DESIGN.md 5 C19)",
-    "C03": "not yet built in this round",
     "C06": "not yet built in this round (bounded stand-in planned)",
     "C10": "not yet built in this round",
     "C18": "not yet built in this round",
